@@ -160,13 +160,28 @@ theorem interrupted_history_with_validation (r : Run P O G B L Sc) (hr : r.Ok) (
     rw [this]
     exact r.loop_finish hr r.total start d hst (by omega)
 
-/-- the hypotheses `VCfg.Ok` are satisfied by the engine's mode handling as it is now (flags inside the parameters;
-`enter` = all models in training mode; a validation ends in training mode; the optimiser leaves the flags alone) -/
-example : (C15E.Toy.intVNow 4).Ok
-    ({ ops := C15E.Toy.intOpsMode, lrAt := fun _ => 1, cfg := { k := 1 }, batch := fun _ => 1,
-       init := ⟨(true, 0), (), 0, 0, ()⟩, total := 12, ckSteps := 3, encode := fun _ => [], decode := fun _ => none } :
-      Run (Bool × Int) Unit Int Int Int Unit) :=
-  { after := fun _ => rfl, idem := fun _ => rfl, opt := fun _ _ _ _ h => h ▸ rfl, init := rfl }
+/-- the hypotheses `Run.Ok` and `VCfg.Ok` are jointly satisfiable: integer toy with the mode flag inside the parameters
+(`enter` = all models in training mode; a validation ends in training mode; the optimiser leaves the flag alone), a
+two-way codec -/
+example : ∃ (r : Run (Bool × Int) Unit Int Int Int Unit) (v : VCfg (Bool × Int)), r.Ok ∧ v.Ok r ∧ v.hasVal = true :=
+  ⟨{ ops := C15E.Toy.intOpsMode, lrAt := fun _ => 1, cfg := { k := 1 }, batch := fun _ => 1,
+     init := ⟨(true, 0), (), 0, 0, ()⟩, total := 12, ckSteps := 3,
+     encode := fun c => [[if c.theta.1 then 1 else 0, if c.theta.2 < 0 then 1 else 0, c.theta.2.natAbs], [c.epoch]],
+     decode := fun b => match b with
+       | [f, s, a, e] => some ⟨(f == 1, if s = 1 then -(a : Int) else (a : Int)), (), e, ()⟩
+       | _ => none },
+   C15E.Toy.intVNow 4,
+   { table := rfl, label := rfl, init := rfl, save := by decide,
+     codec := by
+       intro c
+       obtain ⟨⟨fl, th⟩, u, e, sc⟩ := c
+       cases fl <;> by_cases h : th < 0
+       · simp [h]; omega
+       · simp [h]; omega
+       · simp [h]; omega
+       · simp [h]; omega },
+   { after := fun _ => rfl, idem := fun _ => rfl, opt := fun _ _ _ _ h => h ▸ rfl, init := rfl },
+   rfl⟩
 
 /-- **the pinned tree violated the property through the mode flags**: `validation_loop` ended with `self.model.train()`,
 so after the first validation (iteration 8) the additional models stayed in eval mode; a process stopped after
@@ -406,6 +421,8 @@ theorem periodic_checkpoints_misaligned_when_k_divides_period (k ck t : Nat) (hk
   have h2 : ck ∣ t := Nat.dvd_of_mod_eq_zero ht
   have h3 : t % k = 0 := Nat.mod_eq_zero_of_dvd (Nat.dvd_trans h1 h2)
   rw [Nat.add_mod, h3, Nat.zero_add, Nat.mod_mod, Nat.mod_eq_of_lt (by omega)]
+
+example : (2 : Nat) ≤ 2 ∧ 4 % 2 = 0 ∧ 8 % 4 = 0 ∧ (8 + 1) % 2 = 1 := by decide
 
 /-- **for `k ≥ 2` two consecutive periodic checkpoints are never both aligned**, whatever `checkpoint_steps` is: the
 alignment hypothesis of the history theorem can only hold for hand-picked stop points (e.g. SIGINTs at window starts) -/
